@@ -280,6 +280,9 @@ class RepoModel:
         return self.by_modname.get(name)
 
     def mro(self, c: ClassInfo) -> List[ClassInfo]:
+        cache = self.__dict__.setdefault("_mro_cache", {})
+        if id(c.node) in cache:
+            return cache[id(c.node)]
         out, seen = [], set()
 
         def rec(ci):
@@ -293,14 +296,19 @@ class RepoModel:
                     rec(bc)
 
         rec(c)
+        cache[id(c.node)] = out
         return out
 
     def subclasses(self, c: ClassInfo) -> List[ClassInfo]:
+        cache = self.__dict__.setdefault("_sub_cache", {})
+        if id(c.node) in cache:
+            return cache[id(c.node)]
         out = []
         for m in self.modules.values():
             for k in m.classes.values():
                 if k is not c and c in self.mro(k):
                     out.append(k)
+        cache[id(c.node)] = out
         return out
 
     def find_method(self, c: ClassInfo, name: str) -> Optional[Func]:
